@@ -92,12 +92,21 @@ Definition check_pwread (c : pwread_case) : list string :=
   tag_if (negb (res_eqb (list_eqb user_eqb) (load_users (pc_text c)) (pc_users c))) "mismatch:passwd-reader" ++
   tag_if (negb (res_eqb (list_eqb group_eqb) (load_groups (pc_text c)) (pc_groups c))) "mismatch:group-reader".
 
+(* file level: etc/passwd or etc/group rewritten in place through WriteFile; the file must hold what Write produces for the
+   entries written last (pf_want, itself compared with the model by the users/groups cases), nothing of what was there before *)
+Record pwfile_case := { pf_kind : string; pf_backend : string; pf_want : string; pf_file : res string }.
+Definition check_pwfile (c : pwfile_case) : list string :=
+  match pf_file c with
+  | Ok t => tag_if (negb (t =? pf_want c)) "viol:accounts-file-rewrite-differs-from-entries-written"
+  | _ => ["viol:accounts-file-rewrite-failed"]
+  end.
+
 (* one sum type so that a stage can mix kinds *)
 Inductive c16_case :=
 | CIndex (c : index_case) | CRead (c : read_case) | CInstalled (c : installed_case)
-| CUsers (c : users_case) | CGroups (c : groups_case) | CPwRead (c : pwread_case).
+| CUsers (c : users_case) | CGroups (c : groups_case) | CPwRead (c : pwread_case) | CPwFile (c : pwfile_case).
 Definition check_c16 (c : c16_case) : list string :=
   match c with
   | CIndex c => check_index c | CRead c => check_read c | CInstalled c => check_installed c
-  | CUsers c => check_users c | CGroups c => check_groups c | CPwRead c => check_pwread c
+  | CUsers c => check_users c | CGroups c => check_groups c | CPwRead c => check_pwread c | CPwFile c => check_pwfile c
   end.
